@@ -392,6 +392,8 @@ func runC18(e *Engine, r *Report) {
 	ruleSelfRemoved(e, r)
 	borrow(e, r, "C08", "MPT-restore-replaces")
 	borrow(e, r, "C03", "GD-tally")
+	ruleTallyDistinct(e, r)
+	ruleRestoreRegistersAll(e, r)
 }
 
 func itoa(i int) string {
